@@ -101,6 +101,8 @@ def rnd_outcome(rng, idx, raw=False):
                 if v["v"] == "msg":
                     if v["code"] is None: v["code"] = rng.choice([69, 68, 65, 132, 160])
                 acts.append(["add", v, rng.random() < 0.45])
+                if v["v"] in ("other", "noresponse") and rng.random() < 0.5:      # ... and does not catch what add_response raises
+                    acts.append(["raise", {"e": "other", "cls": "AttributeError"}]); break
             elif k < 0.9: acts.append(["raise", rnd_exc(rng, idx)]); break
             else: acts.append(["return"]); break
         return {"k": "script", "actions": acts}
@@ -139,10 +141,15 @@ def rnd_request(rng, idx, site, used_mids, remote=None, token=None, raw_bias=0.0
     raw = site is not None and any(e["path"] == path and e["kind"] == "raw" for e in site)
     code = rng.choice([1, 1, 1, 2, 3, 4, 5, 6, 7, rng.choice([8, 9, 30, 31])])
     kind = next((e["kind"] for e in site if e["path"] == path), None) if site is not None else None
+    out = rnd_outcome(rng, idx, raw)
+    nr = rng.choice(NR_VALUES)
+    if out["k"] == "return" and out["value"]["v"] == "msg" and rng.random() < 0.06:
+        # a Message whose code is not a response code (empty, request, reserved, signalling); No-Response left out (it would go on the wire)
+        out["value"]["code"] = rng.choice([0, 1, 2, 31, 32, 63, 192, 200, 225, 255]); out["value"]["nr"] = None; nr = None
     obs = rng.choice([None, None, None, None, None, None, 0, 1, 7])
     if is_obs(kind): obs = rng.choice([0, 0, 0, 0, None, 1, 2]); code = rng.choice([1, 1, 1, 5, 5, 2, code])
     return {"obs": obs, "id": idx, "remote": remote, "token": token, "mid": mid, "con": rng.random() < 0.6, "code": code, "path": path,
-            "nr": rng.choice(NR_VALUES), "slow": rng.random() < 0.5, "mcast": rng.random() < 0.1, "outcome": rnd_outcome(rng, idx, raw)}
+            "nr": nr, "slow": rng.random() < 0.5, "mcast": rng.random() < 0.1, "outcome": out}
 
 TICKS = [1, 50000, 99999, 100000, 100001, 150000, 200000]
 def eff_slow(site, r):
@@ -231,6 +238,24 @@ def gen_unencodable(rng):
     if good["slow"]: script += [["tick", rng.choice([50000, 100000])], ["done", 1]]
     return {"site": site, "mid0": 1000, "requests": [bad, good], "script": finish_script([bad, good], script)}
 
+def gen_options(rng):
+    """requests carrying Block2 / Block1 / Uri-Path-Abbrev options, and responses large enough to be sliced: branches of Site.render_to_pipe (_expand_upa) and
+    Resource._render_to_pipe (Block1Spool / Block2Cache) in front of the handler that the model does not have — oracle only: still exactly one response per request"""
+    site = SITES[0]; reqs = []; script = []
+    n = rng.choice([1, 1, 2, 3])
+    for i in range(n):
+        big = rng.choice([0, 0, 0, 1100, 1500, 3000])
+        o = rng.choice([{"k": "return", "value": {"v": "msg", "code": rng.choice([None, 69, 132]), "payload": [65 + i] * rng.choice([0, 3, 20]), "cf": None, "nr": None, "big": big}},
+                        {"k": "raise", "exc": {"e": "other", "cls": "RuntimeError"}}, {"k": "raise", "exc": _CRE("BadRequest", "diag")}, {"k": "return", "value": {"v": "none"}}])
+        opts = rng.choice([{"block2": [rng.choice([0, 0, 1, 2, 7]), False, rng.choice([0, 2, 6])]}, {"block1": [rng.choice([0, 0, 1, 3]), rng.random() < 0.5, rng.choice([0, 2, 6])]},
+                           {"upa": rng.choice([0, 1, 2, 99, 65000])}, {"upa": 0, "keep_path": True}, {"block2": [0, False, 0], "block1": [0, False, 6]}, {}])
+        r = {"id": i, "remote": rng.randrange(2), "token": [40 + i], "mid": 1000 + 17 * i, "con": rng.random() < 0.6, "code": rng.choice([1, 2, 3, 5]), "path": rng.choice([[1], [1], [9], []]),
+             "nr": None, "obs": None, "slow": rng.random() < 0.4, "mcast": False, "outcome": o, "opts": opts}
+        if "upa" in opts and not opts.get("keep_path"): r["path"] = []
+        reqs.append(r); script.append(["req", i])
+        if rng.random() < 0.5: script.append(["tick", rng.choice([50000, 100000])])
+    return {"site": site, "mid0": 300, "requests": reqs, "script": finish_script(reqs, script)}
+
 def systematic():
     """every handler outcome kind x method x CON/NON x fast/slow-before/slow-after-the-empty-ACK, one request each"""
     site = SITES[0]
@@ -289,15 +314,18 @@ class C09(fw.Property):
     level_text = ("Theorems (closed under the global context): the decision table of final responses (default codes, renderable errors, bare 5.00, 4.04/4.05), "
                   "the once-only final event of the request's pipes for every behaviour of the rendering coroutine and every stop(), and for the stack model: "
                   "per request at most one final response in every run, exactly one for every request whose handler gets to finish, content depending on that request only.")
-    level_note = ("Hand-written model tied to the code by the correspondence run only (no translated kernel). One open finding (known_findings.d/C09.json): a returned Message that cannot be serialised (str payload) can block "
+    level_note = ("Hand-written model tied to the code by the correspondence run only (no translated kernel). Two open findings (known_findings.d/C09.json): a returned Message with a non-response code is sent as a message of our own and the request stays unanswered "
+                  "(modelled faithfully: send_plain, C09_non_response_code_refuted); a returned Message that cannot be serialised (str payload) can block "
                   "the remote's backlog / leave the request un-ACKed (excluded from the model by the type of m_payload, exercised by the oracle-only stream 'unencodable'); "
                   "the former finding (error renderer returning a non-Message never answered) is fixed in /repo (abf5426) and modelled as fixed. Not modelled: deduplication, retransmission, block-wise, observe, handlers raising BaseException "
-                  "(CancelledError), Messages that carry a non-response code. Liveness of backlogged CON responses depends on client ACKs (C14).")
+                  "(CancelledError), the Block1/Block2/Uri-Path-Abbrev branches in front of the handler (oracle-only stream 'options'). 'Exactly one on the wire' at run level = "
+                  "'exactly one handed to the message layer' + 'on the wire at once for NON / piggy-backable responses' + 'at most one datagram, with the token, in every run'; "
+                  "liveness of backlogged CON responses depends on client ACKs (C14).")
     rule = ("streams: single = one request (site/no site, known/unknown path, 7 methods + unknown codes, resources with partial method sets, CON/NON, No-Response values, "
             "multicast flag, Observe option, fast/slow handler, every outcome kind) ; observable (20 %) = requests with Observe=0 / other / none to resource.ObservableResource subclasses and "
             "Resources mixed with interfaces.ObservableResource whose add_observation accepts, declines, accepts-then-deregisters or raises, alone and among neighbours ; concurrent = 2-6 requests from 1-3 remotes with random interleaving of arrival, handler completion, "
             "time steps around EMPTY_ACK_DELAY and client ACKs, token reuse and override ; pipe = resources implementing render_to_pipe that perform random sequences "
-            "of add_response (final / non-final / non-message values), raise and return ; unencodable (4 %, oracle only, no model term) = a handler returning a Message whose payload is a str, followed by a well-behaved neighbour ; thorough adds the full product outcome x method x CON/NON x timing. "
+            "of add_response (final / non-final / non-message values), raise and return ; options (4 %, oracle only) = requests with Block2 / Block1 / Uri-Path-Abbrev options and responses of 1100-3000 bytes (branches in front of the handler that the model does not have: exactly one response each, code from the expected set) ; 6 % of returned messages carry a non-response code (open finding) ; unencodable (4 %, oracle only, no model term) = a handler returning a Message whose payload is a str, followed by a well-behaved neighbour ; thorough adds the full product outcome x method x CON/NON x timing. "
             "Each case runs through the real stack and through Model/C09Stack.run_script; compared: every datagram (type, mid, code, token, payload, options), "
             "log records of interest, exceptions raised into tasks, table sizes at the end. Non-trivial = at least one request answered with a response whose code "
             "was not supplied literally by the handler or two requests in flight at once; distinct by full input.")
@@ -312,6 +340,7 @@ class C09(fw.Property):
         for k in range(n):
             m = k % 10
             if k % 25 == 24: yield "unencodable", gen_unencodable(rng); continue
+            if k % 25 == 14: yield "options", gen_options(rng); continue
             if k % 5 == 3: yield "observable", (gen_single(rng, obs_bias=0.9) if k % 10 == 3 else gen_concurrent(rng, raw_bias=0.05, obs_bias=0.7)); continue
             if m < 4: yield "single", gen_single(rng)
             elif m < 8: yield "concurrent", gen_concurrent(rng)
@@ -339,7 +368,7 @@ class C09(fw.Property):
         def mkvalue(v):
             k = v["v"]
             if k == "msg":
-                m = Message(code=None if v["code"] is None else Code(v["code"]), payload=(SECRET + "-str-payload") if v.get("badpayload") else bytes(v["payload"]))
+                m = Message(code=None if v["code"] is None else Code(v["code"]), payload=(SECRET + "-str-payload") if v.get("badpayload") else bytes(v["payload"]) + b"z" * v.get("big", 0))
                 if v["cf"] is not None: m.opt.content_format = v["cf"]
                 if v["nr"] is not None: m.opt.no_response = v["nr"]
                 return m
@@ -439,7 +468,7 @@ class C09(fw.Property):
             wire = []
             for t, rem, raw, rid in mi.take():
                 d = Message.decode(raw, rem)
-                extra = sorted(int(o.number) for o in d.opt.option_list() if int(o.number) not in (6, 12))
+                extra = sorted(int(o.number) for o in d.opt.option_list() if int(o.number) not in ((6, 12, 23, 27, 28) if stream == "options" else (6, 12)))
                 w = {"rq": rid, "to": int(rem.name[1:]), "t": TYPES[int(d.mtype)], "mid": d.mid, "code": int(d.code), "tok": list(d.token), "pl": list(d.payload),
                      "cf": None if d.opt.content_format is None else int(d.opt.content_format), "obs": d.opt.observe, "x": extra}
                 if w["t"] == "CON": outstanding.setdefault(w["to"], []).append(w["mid"])
@@ -470,6 +499,10 @@ class C09(fw.Property):
                                     uri_path=tuple("p%d" % x for x in r["path"]), payload=bytes([r["id"]]))
                         if r["nr"] is not None: m.opt.no_response = r["nr"]
                         if r.get("obs") is not None: m.opt.observe = r["obs"]
+                        for k_, v_ in (r.get("opts") or {}).items():
+                            if k_ == "block2": m.opt.block2 = tuple(v_)
+                            elif k_ == "block1": m.opt.block1 = tuple(v_)
+                            elif k_ == "upa": m.opt.uri_path_abbrev = v_
                         simnet.inject(loop, mman, m.encode(), addr(r))
                     elif ev[0] == "done":
                         f = env.futures.get(ev[1])
@@ -497,7 +530,7 @@ class C09(fw.Property):
 
     # ------------------------------------------------------------------ model
     def model(self, stream, inp):
-        if stream == "unencodable": return None          # outside the model (it assumes Messages serialise): oracle only
+        if stream in ("unencodable", "options"): return None          # outside the model (it assumes Messages serialise): oracle only
         evs = []
         for ev in inp["script"]:
             if ev[0] == "req": evs.append("Req %s" % g_request(inp["requests"][ev[1]]))
@@ -522,7 +555,7 @@ class C09(fw.Property):
         site = inp["site"]
         if site is None: return ("no-site", 132, None, None, None)
         res = next((e for e in site if e["path"] == r["path"]), None)
-        if res is None: return ("not-found", 132, None, None, None)
+        if res is None: return ("not-found", 132, [], None, None)
         if res["kind"] == "raw": return ("raw", None, None, None, None)
         o = r["outcome"]
         def of_exc(e):
@@ -541,12 +574,13 @@ class C09(fw.Property):
             return ("exception", 160, [], None, None)
         k = res["kind"]
         if is_obs(k) and r.get("obs") == 0 and isinstance(k["mode"], dict): return of_exc(k["mode"]["raise"])     # add_observation itself fails
-        if r["code"] not in methods_of(k): return ("no-method", 133, None, None, None)
+        if r["code"] not in methods_of(k): return ("no-method", 133, list(b"Error: Method not allowed!"), None, None)
         if o["k"] == "raise": return of_exc(o["exc"])
         v = o["value"]
         if v["v"] == "noresponse": return ("return-noresponse", None, [], None, 26)
         if v["v"] != "msg": return ("return-non-message", 160, [], None, None)
         if v.get("badpayload"): return ("return-unencodable", 160, [], "any", None)
+        if v["code"] is not None and not (64 <= v["code"] < 192): return ("return-non-response-code", 160, [], "any", None)
         code = v["code"]
         kind = "return-code"
         if code is None:
@@ -597,8 +631,34 @@ class C09(fw.Property):
         if v is not None and stream == "unencodable":
             return ("C09:unencodable-response", "handler returned a Message whose payload is a str (cannot be serialised): " + v[1])
         return v
+    def oracle_options(self, inp, res):
+        """requests with Block / Uri-Path-Abbrev options or large responses: exactly one response per request, with its token, a response code from the expected set, no text leaked"""
+        reqs = inp["requests"]; got = {r["id"]: [] for r in reqs}
+        for st in res["steps"]:
+            for w in st["wire"]:
+                if SECRET.encode() in bytes(w["pl"]): return ("C09:options:leak", "exception text on the wire")
+                if w["code"] == 0: continue
+                if w["rq"] not in got: return ("C09:options:stray-response", "response that answers no request: %r" % (w,))
+                got[w["rq"]].append(w)
+        for r in reqs:
+            ws = got[r["id"]]
+            if len(ws) != 1: return ("C09:options:count:%d" % len(ws), "request %d (%r) got %d responses, exactly one expected" % (r["id"], r.get("opts"), len(ws)))
+            w = ws[0]
+            if w["tok"] != r["token"] or w["to"] != r["remote"]: return ("C09:options:wrong-token", "request %d answered with token %r" % (r["id"], w["tok"]))
+            if not (64 <= w["code"] < 192): return ("C09:options:not-a-response", "request %d answered with code %d" % (r["id"], w["code"]))
+            failing = r["outcome"]["k"] == "raise" and r["outcome"]["exc"]["e"] == "other" or r["outcome"]["k"] == "return" and r["outcome"]["value"]["v"] != "msg"
+            allowed = {95, 128, 130, 132, 133, 136, 141, 160} if failing else {65, 66, 68, 69, 95, 128, 130, 132, 133, 136, 141}
+            o_ = r.get("opts") or {}
+            if "upa" in o_ and (o_["upa"] in (99, 65000) or o_.get("keep_path") and r["path"]):      # unknown abbreviation / conflict with Uri-Path: 4.02 before any dispatch
+                allowed = {130}
+            if w["code"] not in allowed: return ("C09:options:wrong-code:%d" % w["code"], "request %d (%r): code %d" % (r["id"], r.get("opts"), w["code"]))
+            if len(w["pl"]) > 1124: return ("C09:options:oversized", "request %d: %d payload bytes in one datagram" % (r["id"], len(w["pl"])))
+        if res["loop_exc"]: return ("C09:options:loop-exception", "%d exceptions reached the event loop" % res["loop_exc"])
+        if res["end"]["incoming"]: return ("C09:options:request-leaked", "%d requests still registered" % res["end"]["incoming"])
+        return None
     def oracle_(self, stream, inp, res):
         if "harness_exception" in res: return ("C09:crash:" + res["where"], "implementation raised %s: %s" % (res["harness_exception"], res.get("text")))
+        if stream == "options": return self.oracle_options(inp, res)
         reqs = inp["requests"]; site = inp["site"]
         got = {r["id"]: [] for r in reqs}; acks = {r["id"]: 0 for r in reqs}; by_mid = {}
         started = set(); finished = set(); registered = {}; overridden = set(); overrider = set()
@@ -662,9 +722,12 @@ class C09(fw.Property):
             if r["id"] not in started: continue
             v = check_request(r)
             if v is not None:
-                if self.obs_mode(inp, r) == "decline" and exp[r["id"]][0] in ("renderable", "no-method"):
+                if self.obs_mode(inp, r) == "decline" and exp[r["id"]][0] in ("renderable", "no-method") and "code 160" in v[1]:
                     return ("C09:declined-observation:error-replaced-by-500", "Observe=0 to an observable resource that declines the observation: the handler's renderable error is replaced "
                             "by the AttributeError of `finally: servobs._cancellation_callback()` — " + v[1])
+                if exp[r["id"]][0] == "return-non-response-code":
+                    return ("C09:non-response-code-sent", "handler returned a Message with code %d (not a response code): a bare 5.00 is expected, but: %s"
+                            % (r["outcome"]["value"]["code"], v[1]))
                 if exp[r["id"]][0] == "renderer-non-message":
                     return ("C09:no-response:to_message-returned-non-message", "request %d: to_message() returned a non-Message; one bare 5.00 expected, but: %s" % (r["id"], v[1]))
                 return v
